@@ -347,8 +347,8 @@ Proof.
     cbn [key_ok] in Hk. now apply sum_ord.
   - (* wrappers *)
     destruct w; cbn [key_ok] in Hk; try discriminate.
-    destruct (IH Hk) as [He Hl].
-    split; intros a b c Ha Hb Hc; cbn [has_ty cmp_val] in *; [apply He|apply Hl]; assumption.
+    all: destruct (IH Hk) as [He Hl].
+    all: split; intros a b c Ha Hb Hc; cbn [has_ty cmp_val] in *; [apply He|apply Hl]; assumption.
 Qed.
 
 Lemma cmp_val_eq_cong : forall t, key_ok t = true -> forall a b c,
@@ -414,7 +414,7 @@ Proof.
     apply (Forall_nth_error' _ _ _ _ IH Et); [|exact Hx].
     exact (forallb_In _ _ _ Hk (nth_error_In _ _ Et)).
   - destruct w; cbn [key_ok] in Hk; try discriminate.
-    cbn [has_ty] in Hv. cbn [logical]. now apply IH.
+    all: cbn [has_ty] in Hv; cbn [logical]; now apply IH.
 Qed.
 
 Print Assumptions cmp_val_antisym.
